@@ -234,6 +234,11 @@ class CompilerArgs(T.MutableSequence[str]):
     @classmethod
     @lru_cache(maxsize=None)
     def _should_prepend(cls, arg: str) -> bool:
+        # A bare prefix ('-I' with the directory as the next argument) is defined
+        # by what comes _after_ it (see _can_dedup): moving it to the front would
+        # tear it away from its operand, so it stays where it was added.
+        if arg in cls.prepend_prefixes:
+            return False
         return arg.startswith(cls.prepend_prefixes)
 
     def to_native(self, copy: bool = False) -> T.List[str]:
